@@ -8,8 +8,10 @@ CHECKS = {
         "technique": "property-based testing: exhaustive small-domain enumeration + Hypothesis generation against a "
                      "reference period list",
         "text": "All cycles with <=3 elements, durations 1-4, offsets 0-5 at t in [-12,40] are enumerated completely; "
-                "larger cycles/time steps are sampled (thousands per run). Exploration only: no absence claim beyond "
-                "the enumerated sub-domain.",
+                "larger cycles/time steps are sampled (thousands per run), also for lights / cycles that were used "
+                "before and reach the definition through the offset / elements setters or a new cycle, with the "
+                "'active' flags on and off, and for lights written to and read back from XML / protobuf files. "
+                "Exploration only: no absence claim beyond the enumerated sub-domain.",
         "note": "Trusts the reference (list indexing by (t-offset) mod total) and that durations are positive ints.",
     },
     "C16": {
@@ -17,7 +19,9 @@ CHECKS = {
                      "arc semantics, plus an exhaustively enumerated pi/8 grid",
         "text": "Tens of thousands of generated interval/query/scalar combinations per run (ints, floats, numpy "
                 "scalars, ends +-1ulp, arcs shorter/equal/longer than pi, wrapping images) compared with exact set "
-                "semantics; a pi/8 grid is enumerated completely. Exploration: no absence claim.",
+                "semantics; the interval under test is also reached through the start / end setters after a first "
+                "query and as deepcopy / copy / pickle; a pi/8 grid is enumerated completely. Exploration: no absence "
+                "claim.",
         "note": "Angle membership within 1e-9 of an arc end (other than the exact k=0 ends) is a don't-care; "
                 "arithmetic images are compared with the same float operation applied to the ends.",
     },
@@ -26,7 +30,8 @@ CHECKS = {
                      "an own reference printer/grammar regex and a print->parse->print round-trip",
         "text": "Tens of thousands of ids over the full product of the seven fields (all ISO alpha-3 codes, multi-digit "
                 "numbers, prediction lists, defaults filled by the constructor) and thousands of single/cooperative "
-                "solutions per run. Exploration only.",
+                "solutions per run, a third of them edited (vehicle type, cost function) after the first print and "
+                "checked again. Exploration only.",
         "note": "Reference printer and grammar regex are written from the documented format; one-element prediction "
                 "lists are outside the domain.",
     },
@@ -36,7 +41,9 @@ CHECKS = {
                      "XSD validation",
         "text": "Thousands of solutions per run over model x type x cost x trajectory kind with floats of any finite "
                 "magnitude, ints and numpy scalars, optional metadata; every value compared bit-exactly with the recipe "
-                "and located under its documented element name. Exploration only.",
+                "and located under its documented element name; benchmark id, vehicle and cost of every planning "
+                "problem are compared too; a third of the solutions is edited after the first write and written "
+                "again. Exploration only.",
         "note": "Trusts lxml's XSD validator and the own copy of the element table (written from the shipped XSD and "
                 "the vehicle-model documentation).",
     },
@@ -46,16 +53,19 @@ CHECKS = {
                      "termination",
         "text": "Thousands of lanelets (2-12 vertices, tiny and long segments, collinear runs) queried at 0, full "
                 "length, exactly at and next to vertices; merge pairs with and without gap; thousands of digraphs with "
-                "cycles/diamonds and ranges hitting exact prefix sums. Exploration only; termination up to a step "
-                "budget.",
+                "cycles/diamonds, bent lanelets (inner bound shorter than the centre line), networks built from a "
+                "subset of the lanelet list and ranges hitting exact prefix sums; lanelets with 3-D polylines, lanelets "
+                "that were used, moved or drawn before the queries. Exploration only; termination up to a step budget.",
         "note": "Tolerance 1e-9*(1+scale) on coordinates; route-length comparison is exact (axis-aligned lanelets).",
     },
     "C05": {
         "technique": "property-based testing: Hypothesis-generated objects of every kind x translations x angles (dense "
                      "near 0 and 0.05); oracle = independently computed rigid motion of every stored point/orientation, "
                      "invariants (dimensions, areas, lengths) and inverse-motion metamorphic check",
-        "text": "16 facets (one per object kind, up to whole scenarios with any obstacle mix), ~28k generated cases per "
-                "quick run; every public coordinate/orientation compared with R(a)(p+t) within 1e-9. Exploration only.",
+        "text": "17 facets (one per object kind, up to whole scenarios with any obstacle mix, obstacles with uncertain "
+                "states), ~29k generated cases per quick run; every public coordinate/orientation, the derived "
+                "vertices, exported geometries and occupancies compared with R(a)(p+t) within 1e-9; in half of the cases "
+                "all lazily computed values exist before the motion. Exploration only.",
         "note": "Reference rotation uses math.cos/sin; tolerance 1e-9*(1+|p|+|t|); point-mass states at rest (no "
                 "heading) are discarded; traffic-light shape, areas and histories are not claimed components.",
     },
@@ -66,20 +76,24 @@ CHECKS = {
         "text": "Thousands of obstacles per run (trajectories starting at t0+1 / t0 / t0+2, set-based with interval "
                 "times, PM and custom (vx,vy) headings), t from 3 before to 3 after the horizon; uncertain states with "
                 "rect/circle/polygon regions and angle intervals, sampled at ends/middle/critical angles; scenario "
-                "queries with all filters. Exploration only.",
-        "note": "Obstacle-shape convention (shapes centred at the origin); enclosure is checked on sampled admissible "
-                "(p, psi) only; tolerance 1e-9*(1+scale).",
+                "queries with all filters; shape objects that were used before, update_initial_state, and a rigid "
+                "motion after all caches are filled. Exploration only.",
+        "note": "Shapes with an own centre offset are placed as rotate_translate_local documents (rotation about the "
+                "shape's own centre); enclosure is checked on sampled admissible (p, psi) only; tolerance "
+                "1e-9*(1+scale).",
     },
     "C06": {
         "technique": "property-based testing: Hypothesis-generated lanelet networks x construction routes x query "
                      "points/shapes; differential oracle = brute-force scan with own point-in-polygon / intersection "
                      "tests on raw vertices, with tolerance bands",
-        "text": "Thousands of networks per run (chains, neighbours sharing a boundary, crossing, far apart) built by 8 "
-                "routes incl. XML/protobuf round trips, deepcopy and pickle; lookups by position and by rectangle / "
+        "text": "Thousands of networks per run (chains, neighbours sharing a boundary, crossing, far apart) built by 12 "
+                "routes incl. XML/protobuf round trips, deepcopy, pickle, list / mixed-list add_objects and batch "
+                "removal with rtree=False, twin lanelets on one strip; lookups by position and by rectangle / "
                 "circle / polygon; each shape's contains_point vs its exported geometry; obstacle mapping functions. "
                 "One recorded finding (circle export at half radius) is attributed by signature and excluded so the "
                 "search continues. Exploration only.",
-        "note": "Band: boundary distance < 1e-9*scale; shape answers that flip under 1e-6 growth/shrink are don't-cares; "
+        "note": "Band: boundary distance < 1e-9*scale (a query point that is bit-for-bit a polygon vertex is decided "
+                "exactly); shape answers that flip under 1e-6 growth/shrink are don't-cares; "
                 "circles additionally 0.2 % (64-gon export).",
     },
     "C01": {
@@ -89,7 +103,10 @@ CHECKS = {
         "text": "Thousands of scenarios per run over every obstacle role, shape kind, expressible state class (incl. "
                 "custom attribute subsets), exact / interval / region values, signs, lights, stop lines, intersections, "
                 "goal shapes / goal lanelets, header and location, precision 1..12; compared element by element with "
-                "the recipe. One recorded finding (sign 'virtual' lost) has its own facet. Exploration only.",
+                "the recipe; the writer is also used after a decoy writer was built, reused, reused after an edit of "
+                "the scenario, on scenarios that were queried before, with re-assigned polygon rings, and the file is "
+                "also read with lanelet assignment. One recorded finding (sign 'virtual' lost) has its own facet. "
+                "Exploration only.",
         "note": "Enum domains are computed from the shipped XSD; initial time step 0 and the other schema limits "
                 "narrow the domain; state class identity only for specific classes.",
     },
@@ -98,7 +115,8 @@ CHECKS = {
                      "outside / on the boundary / shifted by 2 pi) against an independent three-valued evaluation of "
                      "the specification (Fraction intervals, own containment, arc membership)",
         "text": "30k generated cases per quick run over kinematic, point-mass and custom (vx,vy) states, lanelet goals, "
-                "long / wrapping / int-valued angle intervals and trajectories for goal_reached. Exploration only.",
+                "long / wrapping / int-valued angle intervals and trajectories for goal_reached; regions also as "
+                "deepcopy / pickle and after a rigid motion and its inverse. Exploration only.",
         "note": "Don't-care bands: 1e-9*scale at shape boundaries and arc ends, 1e-9*(1+v) for point-mass speed.",
     },
     "C19": {
@@ -107,7 +125,8 @@ CHECKS = {
                      "occupancies recomputed from the recipe), introspective parameter-propagation check",
         "text": "Hundreds of full renders per quick run over all obstacle roles, uncertain states, signs, lights, "
                 "intersections, 211 boolean flags, draw_ids filters and time windows before/inside/after horizons; "
-                "thousands of propagation cases over every BaseParam subclass. Exploration only.",
+                "thousands of propagation cases over every BaseParam subclass; one renderer reused for several "
+                "frames; partial YAML style sheets. Exploration only.",
         "note": "Agg backend only; window end accepted inclusive or exclusive; content judged in the configuration "
                 "the statement fixes.",
     },
@@ -133,7 +152,9 @@ CHECKS = {
         "text": "2400 histories per quick run over scenario-level and network-level removals (single / list forms, "
                 "with and without referenced elements), cut-outs by rectangle / circle / polygon and by lanelet types, "
                 "create_from_lanelet_list; no-dangling, relations == original & remaining, content unchanged, original "
-                "untouched. Circle cut-outs are attributed to the recorded half-radius finding. Exploration only.",
+                "untouched (also later: a network a cut-out was taken from / produced earlier must not change when the "
+                "other one is operated on), derived incoming maps. Circle cut-outs are attributed to the recorded "
+                "half-radius finding. Exploration only.",
         "note": "first_occurrence and left_of are not among the listed reference kinds (lenient).",
     },
     "C15": {
@@ -141,16 +162,18 @@ CHECKS = {
                      "oracle = reference contents produced by fresh writers before the history starts (differential), "
                      "byte comparison modulo the date stamp, SKIP leaves bytes untouched",
         "text": "Hundreds of histories per quick run interleaving up to 5 XML / protobuf writers with 2-3 precisions "
-                "over 1-3 scenarios, write_to_file / write_scenario_to_file / overwrite / SKIP; references are "
-                "cross-checked with the C01/C02 comparator. Exploration only.",
+                "over 1-3 scenarios, write_to_file / write_scenario_to_file / overwrite / SKIP (explicit and default "
+                "file names) / edits of the scenario between writes; every reference file must read back to the "
+                "scenario (C01/C02 comparator). Exploration only.",
         "note": "Scenario content restricted to what both formats carry; date stamp normalised.",
     },
     "C18": {
         "technique": "property-based testing: generated scenarios x sequences of read-only operations; invariant = deep "
                      "structural snapshot (incl. attribute-name sets and id-table types) identical before and after "
                      "every operation, exports before/after byte-identical modulo date",
-        "text": "1350 sequences per quick run over 16 kinds of read-only operation (queries, lookups, goal checks, ==, "
-                "hash, copy, deepcopy, pickle, str, XML/protobuf writers, draw+render) on scenarios enriched with the "
+        "text": "1350 sequences per quick run over 17 kinds of read-only operation (queries, lookups, merge queries, goal "
+                "checks, ==, hash, copy, deepcopy, pickle, str, XML/protobuf writers, draw+render; the snapshot "
+                "includes query answers of lights and of the spatial index) on scenarios enriched with the "
                 "structures that make side effects visible. Exploration only.",
         "note": "Snapshot goes through public accessors; an exception of a read-only operation is not counted as a "
                 "mutation.",
@@ -159,8 +182,9 @@ CHECKS = {
         "technique": "property-based / model-based testing: generated histories interleaving queries (cache fill) and "
                      "public mutators; differential oracle = the same queries on an object rebuilt through the public "
                      "constructors from the current primary data; list model for update_initial_state histories",
-        "text": "Four machines (dynamic obstacle / prediction, lanelet, lanelet network / scenario incl. deepcopy and "
-                "pickle, traffic-light cycle), ~10k histories per quick run, every step followed by the full query "
+        "text": "Five machines (dynamic obstacle / prediction, static obstacle, lanelet, lanelet network / scenario incl. "
+                "deepcopy, pickle and merged networks, traffic-light cycle incl. in-place edits), ~12k histories per "
+                "quick run, every step followed by the full query "
                 "comparison. Exploration only.",
         "note": "Lookups compared as sets with a boundary band, also against brute force; circle queries excluded "
                 "(recorded C06 finding).",
@@ -171,7 +195,9 @@ CHECKS = {
                      "rebuilds, deepcopies, id-set permutations and single-parameter perturbations judged by a "
                      "public-attribute snapshot",
         "text": "52 facets (one per class), ~55k cases per quick run, one perturbation per constructor parameter per "
-                "case; hash checked last so a raising __hash__ cannot hide comparison defects. Exploration only.",
+                "case; hash checked last so a raising __hash__ cannot hide comparison defects; after the comparisons the "
+                "object is moved / gets an attribute re-assigned and is compared and hashed again; nearly equal "
+                "objects (1e-13) must hash alike if they compare equal. Exploration only.",
         "note": "Real perturbations >= 1e-9 absolute (|v| <= 1e3) or >= 1e-6 relative; snapshot differences below "
                 "5e-10 create no obligation.",
     },
@@ -180,7 +206,8 @@ CHECKS = {
                      "= brute-force geometric truth per obstacle and time step, registries compared as the whole "
                      "inverse relation of the recorded assignment",
         "text": "Thousands of scenarios per quick run (static / dynamic with trajectory or none; rectangle, circle, "
-                "polygon; centre-in / shape-touching-only / outside) through assign_obstacles_to_lanelets and through "
+                "polygon incl. polygons that do not contain their reference point; twin lanelets; centre-in / "
+                "shape-touching-only / outside) through assign_obstacles_to_lanelets and through "
                 "XML / protobuf open(lanelet_assignment=True), plus histories with removals and re-adds. Circular "
                 "obstacles are attributed to the recorded half-radius finding. Exploration only.",
         "note": "Band as in C06; set-based predictions and use_center_only are outside the domain.",
@@ -190,7 +217,7 @@ CHECKS = {
                      "interpreted in lock-step with an id-pool model; deep-copy probes through the public API detect "
                      "leaked and double-freed reservations",
         "text": "~11000 histories of up to 40 operations per quick run over universes of up to 40 objects with ids from "
-                "a 14-value pool; every add / remove (single and list forms) / replace / generate operation; "
+                "a 14-value pool (0..13); every add / remove (single and list forms) / replace / generate operation; "
                 "exploration only.",
         "note": "Trusts the documented hanging-members rule; accepts either outcome where replace / add-network "
                 "semantics are undocumented, as long as the pool stays exact.",
